@@ -15,6 +15,7 @@ os.environ.setdefault("OMP_NUM_THREADS", "2")
 import vlib
 
 LEAN_DIR = os.path.join(ROOT, "lean")
+REPO = "/repo"
 ALLOWED_AXIOMS = {"propext", "Classical.choice", "Quot.sound"}
 FORBIDDEN = re.compile(r"\b(sorry|admit|native_decide|bv_decide|implemented_by)\b|^\s*axiom\s|unsafe\s|maxHeartbeats\s+0")
 
@@ -46,7 +47,10 @@ class Ctx:
     def count(self, key, k=1):
         self.hist[key] = self.hist.get(key, 0) + k
 
+    last_case = None
+
     def case(self, obj, nontrivial=True, sample=True):
+        self.last_case = obj
         """register one explored case (JSON-serialisable); returns nothing"""
         self.evaluations += 1
         if nontrivial:
@@ -197,10 +201,20 @@ def main():
             P.replay(ctx, json.load(open(a.replay)))
         else:
             P.run(ctx)
-    except Exception:
-        traceback.print_exc()
-        print("INFRA: harness crashed")
-        return 2
+    except Exception as exc:
+        tb = traceback.extract_tb(exc.__traceback__)
+        lib_frames = [f for f in tb if os.path.realpath(f.filename).startswith(os.path.realpath(REPO) + os.sep)]
+        if not lib_frames:
+            traceback.print_exc()
+            print("INFRA: harness crashed")
+            return 2
+        # the library itself raised on a generated input and no oracle of the property module expected that: the
+        # property quantifies over that input, so this is something that no longer checks. The failing-input search
+        # runs next; if it finds nothing the verdict names this exception and the last generated case.
+        where = lib_frames[-1]
+        broken.append(("library-exception", f"{type(exc).__name__}: {str(exc)[:160]} raised at {os.path.relpath(where.filename, REPO)}:{where.lineno} "
+                       f"({where.name}) on the generated input {json.dumps(ctx.last_case, default=str)[:600]}"))
+        ctx.notes.append("library exception:\n" + "".join(traceback.format_exception(type(exc), exc, exc.__traceback__))[-1500:])
     finally:
         if ctx.model:
             ctx.model.close()
